@@ -10,7 +10,18 @@ every lock operation is a yield point) the oracle alone judges.  The AST pass of
 re-derives the atomicity structure of the class on every run.
 Oracle (eldrv.oracle): thread identity of every action, overlap, run-once, not-early,
 submission order, due order, cancelled-never (strict reading -> known finding for the dispatch
-window), nothing after dispose, nothing lost at quiescence, exit_if_empty."""
+window), nothing after dispose, nothing lost at quiescence, exit_if_empty.
+
+The dispatch-window class of violations ("dispose() returned after the victim's last is_cancelled()
+test, the action started all the same") carries in its signature WHAT HAPPENED INSIDE THE WINDOW:
+whether other actions of the scheduler were tested / started / ended there, and who called the
+dispose() (a scheduling thread, an earlier action of the same batch, an action of another batch).
+The unchanged code has exactly one such signature (nothing else ran in the window, dispose() by a
+scheduling thread -- Props/C31.v: C31_test_right_before_invoke shows the others impossible); it is
+the known finding.  Any other history of the class is a different violation and is reported.
+Cases with two or more items due in the same cycle, the later one disposed by an earlier one of the
+batch (single-threaded, deterministic) or by a scheduling thread while an earlier one runs, are
+among the fixed and the generated cases."""
 from __future__ import annotations
 
 import hashlib
@@ -55,6 +66,24 @@ FIXED = [
     # equal due times: queue item and ready item
     {"eie": False, "t0": 0, "progs": [[["abs", 1000, 1], ["abs", 1000, 2]], [["abs", 0, 3]]], "bodies": {},
      "ticks": [1000]},
+    # ---- one batch, a later item disposed before its turn ----
+    # single-threaded and deterministic: action 0 (on the loop thread) schedules 1, 2, 3, which are gathered in the
+    # same cycle; action 1 disposes 2 before 2's turn; 2 must not run, 3 must
+    {"eie": False, "t0": 0, "progs": [[["now", 0]]],
+     "bodies": {"0": [["now", 1], ["now", 2], ["now", 3]], "1": [["cancel", 2]]}, "ticks": []},
+    # the same with timed items of one due time (submitted by action 0, so that all three disposables exist before
+    # any of them runs), the last one disposed by the first
+    {"eie": False, "t0": 0, "progs": [[["now", 0]]],
+     "bodies": {"0": [["abs", 1000, 1], ["abs", 1000, 2], ["abs", 1000, 3]], "1": [["cancel", 3]]}, "ticks": [1000]},
+    # three items of one due time, the second disposed by a scheduling thread while the first runs
+    # ("pri": exploration hint only -- the order in which threads are preferred when the running one cannot go on:
+    #  submitter, clock, loop thread(s), and the disposing thread last, so that deviating once, inside action 1,
+    #  gives the schedule of interest)
+    {"eie": False, "t0": 0, "progs": [[["abs", 1000, 1], ["abs", 1000, 2], ["abs", 1000, 3]], [["cancel", 2]]],
+     "bodies": {}, "ticks": [1000], "pri": [0, 2, 3, 1]},
+    # immediate items submitted by the loop thread itself, the second disposed by a scheduling thread meanwhile
+    {"eie": True, "t0": 0, "progs": [[["now", 0]], [["cancel", 2]]],
+     "bodies": {"0": [["now", 1], ["now", 2]]}, "ticks": [], "pri": [0, 2, 1]},
 ]
 
 
@@ -99,15 +128,82 @@ def gen_case(rng):
                 op = ["dispose"]
             bodies[str(a)] = [op]
     ticks = [rng.choice([500, 1000, 1000, 2000]) for _ in range(rng.choice([0, 0, 1, 2]))]
+    if rng.random() < 0.35:
+        # a batch: 2-3 items that become due in the same cycle (submitted by one action from the loop thread, or
+        # timed with one due time), a later one disposed before its turn by an earlier one of the batch and/or
+        # by a scheduling thread
+        n = rng.choice([2, 3, 3])
+        batch = [next(labels) for _ in range(n)]
+        if rng.random() < 0.5:
+            setup = next(labels)
+            bodies[str(setup)] = [["now", b] for b in batch]
+            progs[0].append(["now", setup])
+        else:
+            due = t0 + rng.choice([0, 1000])
+            if rng.random() < 0.5:
+                progs[0] += [["abs", due, b] for b in batch]
+            else:
+                setup = next(labels)
+                bodies[str(setup)] = [["abs", due, b] for b in batch]
+                progs[0].append(["now", setup])
+            if due > t0 and 1000 not in ticks:
+                ticks.append(1000)
+        i = rng.randrange(n - 1)
+        victim = rng.choice(batch[i + 1:])
+        x = rng.random()
+        if x < 0.7:
+            bodies[str(batch[i])] = [["cancel", victim]]
+        if x > 0.5:
+            progs.append([["cancel", rng.choice(batch[1:])]])
     return {"eie": rng.random() < 0.4, "t0": t0, "progs": progs, "bodies": bodies, "ticks": ticks}
 
 
 def case_size(case, sched):
-    return sum(len(p) for p in case["progs"]) * 100 + len(sched)
+    return (sum(len(p) for p in case["progs"]) + sum(len(b) for b in case.get("bodies", {}).values())) * 100 + len(sched)
+
+
+def follow_pri(prefix, pri):
+    """follow `prefix`, then run non-preemptively; when the running thread cannot go on, prefer the threads in the
+    order `pri` (thread ids; threads not listed -- e.g. further loop threads -- come after the listed ones)"""
+    rank = {t: k for k, t in enumerate(pri)}
+
+    def ch(k, rn, last):
+        if k < len(prefix):
+            return prefix[k]
+        if last in rn:
+            return last
+        return min(rn, key=lambda t: (rank.get(t, len(pri)), t))
+    return ch
+
+
+def explore_pri(run_once, bound, limit, pri):
+    """k3.explore with another default continuation and breadth-first order (the deviations nearest to the default
+    schedule first).  Same accounting of preemptions."""
+    work = [([], 0)]
+    n = 0
+    while work:
+        prefix, used = work.pop(0)
+        trace, result = run_once(follow_pri(prefix, pri))
+        sched = [c for c, _ in trace]
+        n += 1
+        yield sched, result
+        if n >= limit:
+            return
+        for k in range(len(prefix), len(trace)):
+            c, rn = trace[k]
+            prev = trace[k - 1][0] if k > 0 else None
+            for a in rn:
+                if a == c:
+                    continue
+                cost = 1 if (prev is not None and prev in rn) else 0
+                if used + cost <= bound:
+                    work.append((sched[:k] + [a], used + cost))
 
 
 def run(chk):
+    t_b0 = time.time()
     chk.build_and_prove()
+    t_build = time.time() - t_b0
     quick = chk.tier == "quick"
     broken_scope = bool(chk.broken)
     t_budget = (32 if quick else 420) * (3 if broken_scope and quick else 1)
@@ -125,30 +221,74 @@ def run(chk):
     distinct = set()
     nontrivial = set()
     samples = []
-    windows = 0
+    windows = {}
     evals = 0
+    same_cycle = set()
     notes = {}
     per_case_limit = 12 if quick else 400
     fixed_limit = 60 if quick else 3000
 
     def judge(case, r, fine, sched):
-        nonlocal windows, evals
+        nonlocal evals
         evals += 1
         bad = E.oracle(case, r)
         h = hashlib.sha1(json.dumps([case, r.log], default=str).encode()).hexdigest()
         distinct.add(h)
         if any(e[2] == "start" for e in r.log) and k3.preemptions(r.trace) > 0:
             nontrivial.add(h)
+        # a dispose() that returned while an earlier action was running, for an item tested later without the loop
+        # having gone through a locked block of its own in between (same batch)
+        if batch_cancel(r.log):
+            same_cycle.add(h)
         for sig, msg in bad:
             if sig.startswith("NOTE "):
                 notes[sig] = notes.get(sig, 0) + 1
                 continue
-            if sig == E.WINDOW_SIG:
-                windows += 1
+            if sig.startswith(E.WINDOW_SIG):
+                windows[sig[len(E.WINDOW_SIG):]] = windows.get(sig[len(E.WINDOW_SIG):], 0) + 1
             chk.violation(sig, {"case": case, "schedule": sched, "fine": fine, "what": msg,
                                 "implementation_log": [list(map(str, e)) for e in r.log]},
                           size=case_size(case, sched))
         return bad
+
+    def in_vocabulary(log):
+        """the model's Cancel a is dispose() of the disposable RETURNED for action a: a run in which a cancel op was
+        executed before the schedule call of its target had returned (possible when another thread / an action
+        disposes an item submitted elsewhere) is outside the model's vocabulary -- the driver has nothing to dispose
+        there -- and is judged by the oracle only"""
+        returned = set()
+        for e in log:
+            if e[2] == "ret":
+                returned.add(e[3])
+            elif e[2] == "cancelcall" and e[3] not in returned:
+                return False
+        return True
+
+    def to_coq(case, r, sched):
+        if r.error:
+            return
+        if not in_vocabulary(r.log):
+            hist["oracle_only_cancel_before_the_schedule_returned"] = \
+                hist.get("oracle_only_cancel_before_the_schedule_returned", 0) + 1
+            return
+        inp, out = E.g_case(case, r)
+        coq_cases.append((inp, out))
+        coq_meta.append((case, sched))
+
+    def batch_cancel(log):
+        running, since_lock = None, []
+        for e in log:
+            if e[2] == "start":
+                running = e
+            elif e[2] == "end":
+                running = None
+            elif e[2] == "lock" and running is None:
+                since_lock = []
+            elif e[2] == "cancelret" and running is not None:
+                since_lock.append(e[3])
+            elif e[2] in ("check0", "check1") and e[3] in since_lock:
+                return True
+        return False
 
     with E.rebound():
         for ci, case in enumerate(cases):
@@ -169,21 +309,23 @@ def run(chk):
                 n += 1
                 hist["coarse"] += 1
                 judge(case, r, False, sched)
-                if not r.error:
-                    inp, out = E.g_case(case, r)
-                    coq_cases.append((inp, out))
-                    coq_meta.append((case, sched))
+                to_coq(case, r, sched)
                 if len(samples) < 4 and n == 3:
                     samples.append({"case": case, "schedule": sched,
                                     "log": [list(map(str, e)) for e in r.log][:40]})
+            if case.get("pri"):
+                # directed: another default schedule (see FIXED), its nearest deviations first
+                for sched, _ in explore_pri(lambda ch: once(ch, False), 1 if quick else 2, 70 if quick else 600,
+                                            case["pri"]):
+                    r = box["r"]
+                    hist["directed"] = hist.get("directed", 0) + 1
+                    judge(case, r, False, sched)
+                    to_coq(case, r, sched)
             for _ in range(4 if quick else 40):
                 r = E.run_case(case, k3.random_chooser(chk.rng), fine=False)
                 hist["random"] += 1
                 judge(case, r, False, r.schedule)
-                if not r.error:
-                    inp, out = E.g_case(case, r)
-                    coq_cases.append((inp, out))
-                    coq_meta.append((case, r.schedule))
+                to_coq(case, r, r.schedule)
             # fine: every line and every lock operation
             for sched, _ in k3.explore(lambda ch: once(ch, True), 1 if quick else 2,
                                        limit=max(6, lim // 3)):
@@ -194,6 +336,7 @@ def run(chk):
                 hist["fine"] += 1
                 judge(case, r, True, r.schedule)
     # correspondence in Coq
+    t_explore = time.time() - t_start
     bad, logs = lib.correspondence("C31", "el", E.IMPORTS, E.CASE_TY, E.MODEL_FN, "outcome_eqb", coq_cases,
                                    shard=150)
     for b in bad[:5]:
@@ -205,10 +348,14 @@ def run(chk):
             chk.tie_broken("correspondence EventLoopScheduler vs Core/EventLoop.v",
                            {"case": case, "schedule": sched, "implementation": coq_cases[b][1],
                             "model": shown[-3000:]})
+    chk.cov["phase_seconds"] = {"build_and_prove": round(t_build, 1), "explore": round(t_explore, 1),
+                                "coq_correspondence": round(time.time() - t_start - t_explore, 1)}
     chk.cov["evaluations"] = evals
     chk.cov["distinct_nontrivial"] = len(nontrivial)
     chk.cov["rule"] = ("a case = exit_if_empty flag, 1-3 scheduling threads with 1-3 calls each "
-                       "(schedule/relative/absolute/cancel/dispose), optional one-call action bodies, a clock "
+                       "(schedule/relative/absolute/cancel/dispose), optional action bodies (one call, or an action "
+                       "that submits 2-3 items which are then gathered in one cycle), optionally a batch of 2-3 items due in "
+                       "the same cycle with a later one disposed by an earlier one and/or by a scheduling thread, a clock "
                        "thread; every case is run under all schedules with <= %d preemptions (coarse, capped "
                        "per case), seeded random schedules, and fine-grained schedules; distinct = distinct "
                        "(case, implementation log); non-trivial = at least one action started and at least "
@@ -220,7 +367,8 @@ def run(chk):
                                          with_clock_thread=sum(1 for c in cases if c["ticks"]))
     chk.cov["traces_validated_against_impl"] = len(coq_cases)
     chk.cov["disagreements_checked"] = len([b for b in bad if b >= 0])
-    chk.cov["dispatch_window_hits"] = windows
+    chk.cov["dispatch_window_hits_by_what_happened_in_the_window"] = windows
+    chk.cov["distinct_logs_with_a_same_batch_dispose_before_the_victims_test"] = len(same_cycle)
     chk.cov["observations_outside_the_property"] = notes
     chk.cov["k3_time_self_test"] = "ok" if ok_st else "FAILED"
     chk.cov["atomicity_structure"] = "as assumed by the model" if not diffs else "DIFFERS"
